@@ -1,3 +1,4 @@
+import os
 """Analysis engine over the extracted fact base: function/CFG model, abort-free CFG,
 dominators / post-dominators / control dependence, reaching definitions and origin
 trees (symbolic provenance), call graph with trait-impl expansion.
@@ -205,6 +206,10 @@ class Facts:
             self.features = set(x for x in _C.get(config, "").split(",") if x)
         except Exception:
             self.features = set()
+        self.inlined = []
+        if os.environ.get("VERIF_NO_INLINE") != "1":
+            from .inline import inline_unknown_helpers
+            self.inlined = inline_unknown_helpers(d["fns"])
         self.fns = {q: Fn(self, q, m) for q, m in d["fns"].items()}
         self.consts = d["consts"]
         self.adts = d["adts"]
@@ -934,7 +939,7 @@ class Flow:
                 return None
         return t
 
-    def alternatives(self, l, bb, idx, deep=True):
+    def alternatives(self, l, bb, idx, deep=True, _depth=0):
         """[(def block or None, tree)] for each definition of local l reaching (bb, idx); a single
         definition that is a plain copy/move of another whole local is looked through (deep)."""
         rds = self.reaching_defs(l, bb, idx)
@@ -952,7 +957,7 @@ class Flow:
                     src = rv[2][1]
                 # `_a = _b`, `_a = &*_b`, `_a = _b as T`: pure re-borrows / copies of a whole local
                 if src is not None and src[0] != l and all(p == "*" for p in src[1:]) and not (1 <= src[0] <= self.fn.argc):
-                    return self.alternatives(src[0], b, j, deep)
+                    return self.alternatives(src[0], b, j, deep, _depth)
         out = []
         for d in rds:
             if d == ("entry",):
@@ -963,6 +968,14 @@ class Flow:
                 out.append((b, self.call_tree(b, self.fn.blocks[b]["t"])))
             else:
                 st = self.fn.blocks[b]["s"][j]
+                # one of several definitions that is itself a plain copy of another whole local which has several definitions
+                # (e.g. the result of an inlined helper): report the source's definitions instead of one merged value
+                if deep and st[0] == "=" and _depth < 4:
+                    rv = st[2]
+                    src = rv[1][1] if rv[0] == "use" and rv[1][0] in ("c", "m") else None
+                    if src is not None and len(src) == 1 and src[0] != l and not (1 <= src[0] <= self.fn.argc) and len(self.reaching_defs(src[0], b, j)) > 1:
+                        out.extend(self.alternatives(src[0], b, j, deep, _depth + 1))
+                        continue
                 out.append((b, self.rvalue_tree(st[2], b, j) if st[0] == "=" else ("unk", st[0])))
         return out
 
